@@ -20,6 +20,17 @@ type accessRec struct {
 	site  string
 	locks string
 	held  []uintptr
+	epoch int         // number of hand-overs (Release) the task had performed before this access
+	hb    map[int]int // task -> number of that task's epochs known to happen before this access
+	hbver int
+}
+
+// relInfo: what a hand-over carries (an object put into a sync.Pool): who released it, in
+// which epoch, and what that task itself knew to have happened before.
+type relInfo struct {
+	task  int
+	epoch int
+	hb    map[int]int
 }
 
 // NoObj is what Safe returns when the owner of a field cannot be reached (a nil link in the
@@ -60,13 +71,21 @@ type tracker struct {
 	held map[int][]uintptr
 	keep []interface{} // keeps tracked objects alive so addresses are not recycled
 	n    int
+	// happens-before through hand-overs: putting an object into a pool and getting it out
+	// again orders everything the putter did before with everything the getter does after
+	// (a lockset alone would call a correctly recycled object a race)
+	epoch map[int]int
+	hb    map[int]map[int]int
+	hbver map[int]int
+	rel   map[uintptr]relInfo
 }
 
 // Tracking is the cheap guard transformed code checks first.
 var Tracking bool
 
 func TrackBegin(w *World) {
-	w.Ext["tracker"] = &tracker{locs: map[locKey][]accessRec{}, held: map[int][]uintptr{}}
+	w.Ext["tracker"] = &tracker{locs: map[locKey][]accessRec{}, held: map[int][]uintptr{},
+		epoch: map[int]int{}, hb: map[int]map[int]int{}, hbver: map[int]int{}, rel: map[uintptr]relInfo{}}
 	Tracking = true
 }
 
@@ -112,16 +131,77 @@ func Access(site string, write bool, obj interface{}, field string) {
 	}
 	locks := fmt.Sprint(tr.held[t.ID])
 	for _, a := range tr.locs[k] {
-		if a.task == t.ID && a.write == write && a.locks == locks {
+		if a.task == t.ID && a.write == write && a.locks == locks && a.epoch == tr.epoch[t.ID] && a.hbver == tr.hbver[t.ID] {
 			return
 		}
 	}
 	if len(tr.locs[k]) == 0 && obj != nil {
 		tr.keep = append(tr.keep, obj)
 	}
-	tr.locs[k] = append(tr.locs[k], accessRec{task: t.ID, write: write, site: site, locks: locks, held: append([]uintptr(nil), tr.held[t.ID]...)})
+	tr.locs[k] = append(tr.locs[k], accessRec{task: t.ID, write: write, site: site, locks: locks, held: append([]uintptr(nil), tr.held[t.ID]...),
+		epoch: tr.epoch[t.ID], hb: tr.hb[t.ID], hbver: tr.hbver[t.ID]})
 	tr.n++
 }
+
+func curTracker() (*tracker, *Task) {
+	if !Tracking {
+		return nil, nil
+	}
+	w, t := underSched()
+	if t == nil {
+		return nil, nil
+	}
+	tr, _ := w.Ext["tracker"].(*tracker)
+	return tr, t
+}
+
+// Release: the current task hands object x over (sync.Pool.Put). Everything it did so far
+// happens before whatever the task that later Acquires x does.
+func Release(x interface{}) {
+	tr, t := curTracker()
+	if tr == nil {
+		return
+	}
+	p := PtrOf(x)
+	if p == 0 {
+		return
+	}
+	if _, seen := tr.rel[p]; !seen {
+		tr.keep = append(tr.keep, x)
+	}
+	tr.rel[p] = relInfo{task: t.ID, epoch: tr.epoch[t.ID], hb: tr.hb[t.ID]}
+	tr.epoch[t.ID]++
+}
+
+// Acquire: the current task received x from a hand-over (sync.Pool.Get of a recycled object).
+func Acquire(x interface{}) {
+	tr, t := curTracker()
+	if tr == nil {
+		return
+	}
+	info, ok := tr.rel[PtrOf(x)]
+	if !ok || info.task == t.ID {
+		return
+	}
+	// copy on write: earlier records keep the map they were made with
+	nh := map[int]int{}
+	for k, v := range tr.hb[t.ID] {
+		nh[k] = v
+	}
+	if nh[info.task] < info.epoch+1 {
+		nh[info.task] = info.epoch + 1
+	}
+	for k, v := range info.hb {
+		if k != t.ID && nh[k] < v {
+			nh[k] = v
+		}
+	}
+	tr.hb[t.ID] = nh
+	tr.hbver[t.ID]++
+}
+
+// ordered: a happens before b through a chain of hand-overs
+func ordered(a, b accessRec) bool { return b.hb[a.task] > a.epoch }
 
 // Lock / Unlock maintain the lockset of the current task (called around real sync calls).
 func Lock(mu interface{}) {
@@ -169,7 +249,7 @@ func TrackEnd(w *World) []string {
 				if a.task == b.task || (!a.write && !b.write) {
 					continue
 				}
-				if commonLock(a.held, b.held) {
+				if commonLock(a.held, b.held) || ordered(a, b) || ordered(b, a) {
 					continue
 				}
 				if !a.write {
